@@ -161,8 +161,9 @@ class GlobalIngestData(object):
     @classmethod
     def add_job_info(cls, source_uri: str, data_dialect: InputDialect = None) -> int:
         jobhash = zlib.crc32(str(source_uri).encode()) % 10000
-        if jobhash not in cls._jobmap:
-            cls._jobmap[jobhash] = (Path(source_uri).name, data_dialect)
+        # always (re)register: an entry left by an earlier run of this process for a different
+        # path with the same id must not name the inputs of the current run
+        cls._jobmap[jobhash] = (Path(source_uri).name, data_dialect)
         return jobhash
 
     @classmethod
